@@ -100,7 +100,47 @@ def run(rep, rng, tier, replay=None):
                 rep.violation("property", "sample %d differs after a serde round trip (JSON equal: %s, CBOR equal: %s)" % (i, c17.strip(a) == c17.strip(rj), c17.strip(a) == c17.strip(rc)),
                               case=dict(c, ops=[c["ops"][i]]), failing_input=True, what="restored sampler samples differently")
         rep.sample(dict(graph=c["family"], E=len(c["edges"]), json_keys=list(o["json"]["table"].keys())))
+    # large samplers (11 and 12 edges, two loops, all-massive "theta" graphs): round trip only (no table model: 2^12 subsets),
+    # so that anything keyed or ordered by the edge index is exercised beyond one digit
+    big = []
+    for chains in ([4, 4, 3], [5, 4, 3]):
+        r = rng.fork()
+        pairs, nxt = [], 2
+        for ln in chains:
+            prev = 0
+            for k in range(ln):
+                v = 1 if k == ln - 1 else nxt
+                nxt += 0 if k == ln - 1 else 1
+                pairs.append((prev, v))
+                prev = v
+        E = len(pairs)
+        sig, tree, chords = G.fundamental_signature(pairs)
+        D, L = 3, 2
+        dim = G.num_variables(E, L, D)
+        ed = [dict(mass=f2b(0.5 + r.unit()), shift=[f2b(round((r.unit() - 0.5) * 4, 3)) for _ in range(D)]) for _ in range(E)]
+        ops = [dict(kind="point", scalar="f64", point=[f2b(r.open_unit()) for _ in range(dim)], edge_data=ed, stability=None, debug=False, metadata=True) for _ in range(3)]
+        big.append(dict(edges=[[a, b, True, f2b(1.0 + 0.125 * (i % 3))] for i, (a, b) in enumerate(pairs)], externals=[0, 1], D=D, signature=sig, edge_data=ed,
+                        ops=ops, threads=1, family="theta%s" % chains, L=L))
+    resb = harness("history", dict(cases=big), timeout=900)["results"]
+    for c, o in zip(big, resb):
+        small = dict(c, ops=c["ops"][:1])
+        rep.count([c["edges"], c["signature"], c["D"]], True)
+        if "restore_err" in o:
+            rep.violation("property", "the serialised sampler (E=%d) cannot be deserialised: %s" % (len(c["edges"]), o["restore_err"][:200]), case=small, failing_input=True)
+            continue
+        if "results" not in o or "restored_json" not in o:
+            rep.violation("machinery", "history harness (large sampler): %s" % str(o)[:300], case=dict(c, ops=[]))
+            continue
+        if not (o["json_roundtrip_identical"] and o["cbor_roundtrip_identical"]):
+            rep.violation("property", "E=%d: deserialise + serialise does not reproduce the bytes" % len(c["edges"]), case=small, failing_input=True)
+        for i, (a, rj, rc) in enumerate(zip(o["results"], o["restored_json"], o["restored_cbor"])):
+            rep.count([c["edges"], c["ops"][i]["point"]], True)
+            if c17.strip(a) != c17.strip(rj) or c17.strip(a) != c17.strip(rc):
+                rep.violation("property", "E=%d: sample %d differs after a serde round trip (JSON equal: %s, CBOR equal: %s)" % (
+                    len(c["edges"]), i, c17.strip(a) == c17.strip(rj), c17.strip(a) == c17.strip(rc)),
+                    case=dict(c, ops=[c["ops"][i]]), failing_input=True, what="restored sampler samples differently")
+    rep.cov["large_samplers"] = [dict(E=len(c["edges"]), family=c["family"]) for c in big]
     rep.cov["rule"] = ("accepted connected graphs from all families, D=1..6; the implementation's JSON must equal the model's sampler field for field (names, order, values: catches "
                        "serde(skip), renamed or recomputed fields); round trip through serde_json and ciborium: re-serialisation byte-identical, equal dimension/dod, and 6 points per "
-                       "sampler (random, all 2^-30, all 1-2^-53) sampled bit-identically by original, JSON-restored and CBOR-restored samplers. non-trivial = E>=3 (shape) / every sample")
+                       "sampler (random, all 2^-30, all 1-2^-53) sampled bit-identically by original, JSON-restored and CBOR-restored samplers; two large samplers (theta graphs with 11 and 12 edges) through the same round trips. non-trivial = E>=3 (shape) / every sample")
     rep.assumptions.append("serde_json and ciborium preserve the serde data model and f64 exactly")
